@@ -82,8 +82,12 @@ def replay(data):
 def main(tier):
     ok, bad = glue_ok()
     obs = obligations(tier)
+    extra = None
     if not ok:
-        print("  glue check failed (dir.py uses an entry name outside extensions.match/join: %s): logic obligations are reported inconclusive" % (bad,))
-        obs = [o for o in obs if o["func"] in ("match_unit", "selftest_strip")]
-    return xhprop.main(PROP, tier, FILE, obs, FUNCTIONS, ASSUMPTIONS, OUTSIDE, signature,
+        # the logic obligations still execute the real code on the representative names, so they are run; what is lost is the
+        # justification for composing them with the unit obligation into a claim about ALL names -> one inconclusive entry
+        print("  glue check failed (dir.py uses an entry name outside extensions.match/join: %s): the unit+logic composition is not justified" % (bad,))
+        extra = [(dict(name="glue[dir.py uses entry names only through extensions.match/join]", func="glue", bounds="AST check"),
+                  dict(status="inconclusive", reason="entry name used outside extensions.match/join: %s" % (bad,), paths=0, checks=0, branches=0, solver_s=0.0, wall_s=0.0))]
+    return xhprop.main(PROP, tier, FILE, obs, FUNCTIONS, ASSUMPTIONS, OUTSIDE, signature, extra_results=extra,
                        bounds="classification: every printable-ASCII suffix <= 4; discovery: directories and packs of <= 3 entries drawn from representatives of every class")
